@@ -75,13 +75,14 @@ def parseNext (s : Bytes) (len : Int) : Option Rng × Bytes :=
           | none => (some (n, len - 1), skipWs s2)          -- "first-"
           | some (m, e2) =>
             -- (the C test `n == 0 && e[-1] != '0'` cannot hold after a conversion)
-            if n ≤ m ∧ m ≠ LLONG_MAX then (some (n, if m < len then m else len - 1), skipWs e2)
+            -- (a last-pos clamped to LLONG_MAX is ≥ len: "to the end")
+            if n ≤ m then (some (n, if m < len then m else len - 1), skipWs e2)
             else (none, skipWs e2)
         | e1 => (none, skipWs e1)
       else (none, skipWs e)
-    else if n ≠ LLONG_MIN then
-      (some (if len > -n then len + n else 0, len - 1), skipWs e)   -- suffix "-n"
-    else (none, skipWs e)
+    else
+      -- suffix "-n"; a suffix-length clamped to LLONG_MIN selects the whole representation
+      (some (if n ≠ LLONG_MIN ∧ len > -n then len + n else 0, len - 1), skipWs e)
 
 /-- one ','-separated piece of the header: valid iff a range was produced and
     the parser stopped at the end of the piece (C: at ',' or NUL) -/
